@@ -2,6 +2,16 @@
 """Regenerates MANIFEST.json from the table below (kept in one place so it stays valid)."""
 import json, subprocess
 CLAIMED = {
+ "C02": dict(cat="exploration", tech="deterministic simulation: graphs built by the real builder under seeded schedules from worlds with placed failures; validation verdict compared with a declarative reachable-failure set over all walk options",
+   text="On every graph the simulator produces (failures placed behind static, dynamic, type-only, types-dependency edges and redirect chains), for all 36 walk-option combinations and 4 root subsets validate() must be Err exactly when the reference reachable-failure set is non-empty and must return a member of it. The verdict side is exact per graph; the population of graphs is sampled by seed.",
+   note="The reference shares no code with the iterators but restates their edge-selection and resolution-policy rules; a world-level verdict oracle (independent of the graph's own records) is part of C01's model when claimed.", ref="DESIGN.md §3 C02"),
+ "C14": dict(cat="exploration", tech="deterministic simulation: systematic redirect family (chains, cycles, lockfile-seeded, implicit) served by the simulated loader under seeded schedules; lookups compared with a reference walk",
+   text="All members of a bounded redirect family (chain length 0..13 x end kind x max_redirects x lockfile mode; cycles 1..12 x tail 0..3; implicit redirects) plus seeded worlds are built and every lookup API is compared with a reference walk for every root, dependency target and redirect source. The family is enumerated completely; seeded worlds are sampled.",
+   note="Reference = follow the graph's redirect entries with a seen-set and no hop limit, entries first.", ref="DESIGN.md §3 C14"),
+ "C15": dict(cat="exploration", tech="deterministic simulation for the population of graphs (seeded schedules, world-level failures) + declarative least-fixpoint reference for the walk",
+   text="For each produced graph all 36 walk-option combinations x 4 root subsets (+ skip sets) are compared with an order-free fixpoint: no duplicate, set equality with entry kinds, errors() equal as a multiset.",
+   note="The walk is synchronous; simulation contributes graphs with error slots, redirect entries, external assets, types-only substitutions, dynamic branches that valid-input generators do not produce.", ref="DESIGN.md §3 C15"),
+
  "C03": dict(cat="fault_enumeration", tech="deterministic simulation with fault injection: a fault of every kind at every request the build issues (first-order sweep), sampled multi-fault and second-order plans, seeded schedules",
    text="For small generated base worlds (plain URL and JSR registry) every request identity the fault-free build issues is faulted with every applicable fault kind, under the baseline schedule and a drawn one; seeded cases add multi-fault and second-order plans. Oracles: no panic, termination (scheduler step bound + operation bound), no unfinished entry, requests accounted for, serialisation Ok, hard failures become error entries with an importing referrer, successful cache-busting retry is invisible, locality of everything independent of the fault. Exhaustive only per base world and first order; the population of base worlds is sampled.",
    note="Trusts the simulated seams to honour the documented embedder contracts; response faults only (every request is answered); locality asserted only where no transitive importer is affected.", ref="DESIGN.md §3 C03"),
